@@ -233,7 +233,7 @@ fn num_lit(rng: &mut Rng, v: i64, plus_ok: bool) -> String {
     }
 }
 fn csv_quote(s: &str) -> String {
-    if s.contains(',') || s.contains('"') || s.contains('\n') || s.contains('\r') {
+    if s.contains(',') || s.contains('"') || s.contains('\n') || s.contains('\r') || s.starts_with('\u{feff}') {
         format!("\"{}\"", s.replace('"', "\"\""))
     } else {
         s.to_string()
@@ -427,6 +427,14 @@ pub fn gen_lex(rng: &mut Rng, sink: &mut Sink, pool: &[Pos], sys: Option<&Lex>, 
         } else {
             gen_text(rng, sink, big && i == 0)
         };
+        // characters a CSV reader may treat specially when they open a record or a field: comment marks, quote, separator,
+        // white space, byte-order mark, carriage return, line feed
+        let surface = if surface.len() < 300 && rng.chance(1, 7) {
+            sink.tag("surface_opens_with_csv_sensitive_character");
+            format!("{}{}", rng.pick(&["#", "#", "\"", ",", " ", "\u{feff}", "\r", ";", "'", "\t", "//", "\n", "%", "=", "-"]), surface)
+        } else {
+            surface
+        };
         let headword = match rng.below(40) {
             0 => String::new(),
             1..=6 => gen_text(rng, sink, false),
@@ -451,9 +459,9 @@ pub fn gen_lex(rng: &mut Rng, sink: &mut Sink, pool: &[Pos], sys: Option<&Lex>, 
         let mut split_b = if modeless { vec![] } else { gen_ids(rng, n_sys, n, user, sink) };
         // inline references: aimed at an earlier own row or a system row whose surface equals its headword
         if !modeless && rng.chance(1, 4) {
-            let mut cands: Vec<&Row> = rows.iter().filter(|r| r.surface == r.headword && !r.reading.is_empty() && r.surface.len() < 300 && r.reading.len() < 300).collect();
+            let mut cands: Vec<&Row> = rows.iter().filter(|r| r.surface == r.headword && !r.reading.is_empty() && r.surface.len() < 300 && r.reading.len() < 300 && !r.surface.contains(&[',', '/'][..])).collect();
             if let Some(s) = sys {
-                cands.extend(s.rows.iter().filter(|r| r.surface == r.headword && !r.reading.is_empty() && r.surface.len() < 300 && r.reading.len() < 300));
+                cands.extend(s.rows.iter().filter(|r| r.surface == r.headword && !r.reading.is_empty() && r.surface.len() < 300 && r.reading.len() < 300 && !r.surface.contains(&[',', '/'][..])));
             }
             if !cands.is_empty() {
                 let t = *rng.pick(&cands);
@@ -537,7 +545,7 @@ pub fn gen_lex(rng: &mut Rng, sink: &mut Sink, pool: &[Pos], sys: Option<&Lex>, 
             continue;
         }
         let cands: Vec<usize> = (i + 1..rows.len())
-            .filter(|j| rows[*j].surface == rows[*j].headword && !rows[*j].reading.is_empty() && rows[*j].surface.len() < 300 && rows[*j].reading.len() < 300)
+            .filter(|j| rows[*j].surface == rows[*j].headword && !rows[*j].reading.is_empty() && rows[*j].surface.len() < 300 && rows[*j].reading.len() < 300 && !rows[*j].surface.contains(&[',', '/'][..]))
             .collect();
         if cands.is_empty() {
             continue;
@@ -657,6 +665,8 @@ pub struct Sections<'a> {
     pub header: &'a [u8],
     pub pos: &'a [u8],
     pub conn: &'a [u8],
+    pub trie: &'a [u8],
+    pub table: &'a [u8],
     pub words_offset: usize,
     pub words: &'a [u8],
 }
@@ -687,15 +697,18 @@ pub fn sections(b: &[u8]) -> Option<Sections> {
     if b.len() < o + 4 {
         return None;
     }
+    let trie_start = o + 4;
     o += 4 + 4 * rd_u32(b, o);
+    let trie_end = o;
     if b.len() < o + 4 {
         return None;
     }
+    let table_start = o + 4;
     o += 4 + rd_u32(b, o);
     if b.len() < o + 4 {
         return None;
     }
-    Some(Sections { header: &b[..272], pos: &b[272..pos_end], conn: &b[pos_end..conn_end], words_offset: o, words: &b[o..] })
+    Some(Sections { header: &b[..272], pos: &b[272..pos_end], conn: &b[pos_end..conn_end], trie: &b[trie_start..trie_end], table: &b[table_start..o], words_offset: o, words: &b[o..] })
 }
 
 #[derive(Clone, Debug, PartialEq)]
@@ -768,6 +781,38 @@ pub fn readback<D: DictionaryAccess>(d: &D, dic: u8, n: usize) -> Vec<Readback> 
             }
         })
         .collect()
+}
+
+/// the route a user takes to an entry: surface -> index lookup -> word ids.  For every row, looking its index form up
+/// must yield, as the entries ending exactly there, the ids of exactly the indexed rows (of every dictionary of the
+/// stack) with that index form -- its own id when it is indexed, never the id of a row declared non-indexed.
+/// `stack`: (dictionary id, rows) of every lexicon the loaded dictionary consists of.
+pub fn lookup_route<D: DictionaryAccess>(d: &D, stack: &[(u8, &Lex)]) -> Option<String> {
+    for (_, lex) in stack {
+        for r in &lex.rows {
+            let key = r.surface.as_bytes();
+            let got = catch(|| {
+                let mut v: Vec<u32> = d.lexicon().lookup(key, 0).filter(|e| e.end == key.len()).map(|e| e.word_id.as_raw()).collect();
+                v.sort();
+                v
+            });
+            let mut want: Vec<u32> = vec![];
+            for (dic, l2) in stack {
+                for (j, r2) in l2.rows.iter().enumerate() {
+                    if r2.left >= 0 && r2.surface == r.surface {
+                        want.push(((*dic as u32) << 28) | j as u32);
+                    }
+                }
+            }
+            want.sort();
+            match got {
+                Ok(g) if g == want => {}
+                Ok(g) => return Some(format!("looking up the index form {:?} yields the word ids {:?}; the indexed rows with that index form are {:?}", r.surface, g, want)),
+                Err(p) => return Some(format!("looking up the index form {:?} panicked: {}", r.surface, p)),
+            }
+        }
+    }
+    None
 }
 
 pub fn compile_system(csv: &str, matrix: &str, time: u64, descr: &str) -> Result<Vec<u8>, String> {
@@ -979,6 +1024,13 @@ pub fn run_case(sink: &mut Sink, c: &Case, desc: Value, verbose: bool) {
             let rbs = readback(&loaded, 0, c.sys.rows.len());
             // POS strings and connection costs through the public accessors
             let mut bad: Option<String> = None;
+            // one word per record, and every indexed record reachable through the index under its own number
+            let nwords = loaded.lexicon_set.size() as usize;
+            if nwords != c.sys.rows.len() {
+                bad = Some(format!("the lexicon has {} records, the loaded dictionary {} words", c.sys.rows.len(), nwords));
+            } else if let Some(b) = lookup_route(&loaded, &[(0, &c.sys)]) {
+                bad = Some(b);
+            }
             for (i, r) in c.sys.rows.iter().enumerate() {
                 if let Readback::Ok { pos, .. } = &rbs[i] {
                     let got = loaded.grammar.pos_list.get(*pos as usize);
@@ -1073,6 +1125,12 @@ pub fn run_case(sink: &mut Sink, c: &Case, desc: Value, verbose: bool) {
             let rbs = readback(&jd, 1, user.rows.len());
             let mut bad: Option<String> = None;
             let mut known = false;
+            let nwords = jd.lexicon().size() as usize;
+            if nwords != c.sys.rows.len() + user.rows.len() {
+                bad = Some(format!("the lexicons have {} + {} records, the loaded dictionaries {} words", c.sys.rows.len(), user.rows.len(), nwords));
+            } else if let Some(b) = lookup_route(&jd, &[(0, &c.sys), (1, user)]) {
+                bad = Some(b);
+            }
             for (i, r) in user.rows.iter().enumerate() {
                 if let Readback::Ok { pos, .. } = &rbs[i] {
                     let got = jd.grammar().pos_list.get(*pos as usize);
@@ -1185,7 +1243,7 @@ fn full_term(
 ) -> Option<String> {
     let s = sections(bytes)?;
     Some(format!(
-        "check_c05_csv {} {} {} {} {} {} {} {} {} {} {} {} {} {} {} {} {} {} {} {}",
+        "check_c05_csv {} {} {} {} {} {} {} {} {} {} {} {} {} {} {} {} {} {} {} {} {}",
         cn(version_of(lex.user)),
         cn(time),
         cblob(descr.as_bytes()),
@@ -1205,7 +1263,14 @@ fn full_term(
         cnu(nsys),
         cnu(pos_offset),
         clist((0..lex.rows.len()).map(|i| ctxt(&expected_dicform(lex, i)))),
-        clist(rbs.iter().map(|r| r.coq()))
+        clist(rbs.iter().map(|r| r.coq())),
+        // the index sections, for builder C's model of the index construction (skipped for the 32 K keys: the enumeration
+        // of the trie costs nodes x 256; the lexicons with short index forms are the many)
+        if s.trie.len() <= 16_384 && lex.rows.iter().all(|r| r.surface.len() < 48) {
+            format!("(Some ({}, {}, {}%nat))", cblob(s.trie), cblob(s.table), lex.rows.iter().map(|r| r.surface.len()).max().unwrap_or(0) + 1)
+        } else {
+            "None".to_string()
+        }
     ))
 }
 
